@@ -14,15 +14,19 @@ Open Scope Z_scope.
 Inductive mret := MPrim (p : prim) | MObj | MThrow.
 (* a scripted method: absent/not callable, or: log the call, optionally assign
    a primitive to variable n, then return / throw *)
-Inductive meth := MNone | MDo (setv : option (nat * prim)) (r : mret).
+(* MInherit: the object has no own property of that name, the method is found
+   along the prototype chain at every conversion (8.12.8 does a fresh [[Get]]);
+   MQuiet: a built-in (Object.prototype.valueOf / toString), not logged *)
+Inductive meth := MNone | MDo (setv : option (nat * prim)) (r : mret) | MInherit | MQuiet (r : mret).
 
 Record obj := {
   o_id : Z;
-  o_cls : Z;                 (* 0 plain object, 1 Date, 2 function *)
+  o_cls : Z;                 (* 0 plain object, 1 Date, 2 function, 4 bound function (o_fproto: the target's prototype),
+                                6 / 7 / 8 Number / String / Boolean wrapper *)
   o_vo : meth;               (* own valueOf *)
   o_ts : meth;               (* own toString *)
   o_keys : list (list Z);    (* further own property names *)
-  o_chain : list Z;          (* ids of the objects on its prototype chain *)
+  o_chain : list Z;          (* ids of the objects on its prototype chain, nearest first; 90 = Object.prototype *)
   o_fproto : Z               (* functions: id of F.prototype, 0 if it is not an object *)
 }.
 
@@ -39,7 +43,10 @@ Definition oval_eqb (a b : oval) : bool :=
 
 (* ---------- effects ---------- *)
 
-Record state := { vars : list value; log : list Z }.
+(* tbl: conversion methods assigned / deleted during the run, newest first:
+   (object id, 0 valueOf | 1 toString, method; MInherit = deleted);
+   protos: the objects that occur on prototype chains, by id *)
+Record state := { vars : list value; log : list Z; tbl : list (Z * Z * meth); protos : list obj }.
 Inductive res (A : Type) := Ok (a : A) | Thr (tag : Z) | Decl.
 Arguments Ok {A}. Arguments Thr {A}. Arguments Decl {A}.
 Definition M (A : Type) := state -> res A * state.
@@ -64,30 +71,87 @@ Fixpoint set_nth {A} (n : nat) (a : A) (l : list A) : list A :=
 Definition getvar (n : nat) : M value :=
   fun st => match nth_error (vars st) n with Some v => (Ok v, st) | None => (Decl, st) end.
 Definition setvar (n : nat) (v : value) : M unit :=
-  fun st => (Ok tt, {| vars := set_nth n v (vars st); log := log st |}).
+  fun st => (Ok tt, {| vars := set_nth n v (vars st); log := log st; tbl := tbl st; protos := protos st |}).
 Definition logk (k : Z) : M unit :=
-  fun st => (Ok tt, {| vars := vars st; log := k :: log st |}).
+  fun st => (Ok tt, {| vars := vars st; log := k :: log st; tbl := tbl st; protos := protos st |}).
+Definition setmeth (id which : Z) (m : meth) : M unit :=
+  fun st => (Ok tt, {| vars := vars st; log := log st; tbl := (id, which, m) :: tbl st; protos := protos st |}).
 
 Definition tag_TypeError : Z := 6.
 
 (* ---------- 8.12.8 [[DefaultValue]], 9.1 ToPrimitive ---------- *)
 
-Definition call_meth (o : obj) (which : Z) (m : meth) : M (option prim) :=
+(* Object.prototype: valueOf returns the object itself, toString "[object Object]" *)
+Definition s_object_Object : list Z := [91; 111; 98; 106; 101; 99; 116; 32; 79; 98; 106; 101; 99; 116; 93].
+Definition object_prototype : obj :=
+  Build_obj 90 0 (MQuiet MObj) (MQuiet (MPrim (PStr s_object_Object))) [] [] (-1).
+
+(* the own property as it currently stands *)
+Definition own_meth (st : state) (o : obj) (which : Z) : meth :=
+  match find (fun e => (fst (fst e) =? o_id o) && (snd (fst e) =? which)) (tbl st) with
+  | Some e => snd e
+  | None => if which =? 0 then o_vo o else o_ts o
+  end.
+Definition find_obj (st : state) (id : Z) : option obj :=
+  if id =? 90 then Some object_prototype else find (fun p => o_id p =? id) (protos st).
+(* [[Get]] of valueOf / toString: holder id and method *)
+Fixpoint resolve_chain (st : state) (chain : list Z) (which : Z) : Z * meth :=
+  match chain with
+  | [] => (0, MNone)
+  | pid :: rest =>
+      match find_obj st pid with
+      | Some p => match own_meth st p which with
+                  | MInherit => resolve_chain st rest which
+                  | m => (pid, m)
+                  end
+      | None => resolve_chain st rest which
+      end
+  end.
+Definition resolve (st : state) (o : obj) (which : Z) : Z * meth :=
+  match own_meth st o which with
+  | MInherit => resolve_chain st (o_chain o) which
+  | m => (o_id o, m)
+  end.
+
+(* call the method found on [holder]; None = not callable or a non-primitive result *)
+Definition call_meth (holder which : Z) (m : meth) : M (option prim) :=
   match m with
-  | MNone => ret None
+  | MNone | MInherit => ret None
+  | MQuiet r => match r with MPrim p => ret (Some p) | MObj => ret None | MThrow => throw (100 + holder * 2 + which) end
   | MDo setv r =>
-      _ <- logk (o_id o * 2 + which) ;;
+      _ <- logk (holder * 2 + which) ;;
       _ <- match setv with Some (n, p) => setvar n (VP p) | None => ret tt end ;;
       match r with
       | MPrim p => ret (Some p)
       | MObj => ret None
-      | MThrow => throw (100 + o_id o * 2 + which)
+      | MThrow => throw (100 + holder * 2 + which)
       end
   end.
 
+(* 15.2.4.2: Object.prototype.toString answers with the [[Class]] of the receiver *)
+Definition class_name (o : obj) : list Z :=
+  let c := o_cls o in
+  if c =? 1 then [68; 97; 116; 101]                                   (* Date *)
+  else if (c =? 2) || (c =? 4) then [70; 117; 110; 99; 116; 105; 111; 110]   (* Function *)
+  else if c =? 6 then [78; 117; 109; 98; 101; 114]                    (* Number *)
+  else if c =? 7 then [83; 116; 114; 105; 110; 103]                   (* String *)
+  else if c =? 8 then [66; 111; 111; 108; 101; 97; 110]               (* Boolean *)
+  else [79; 98; 106; 101; 99; 116].                                   (* Object *)
+
+Definition get_and_call (o : obj) (which : Z) : M (option prim) :=
+  fun st => let '(h, m) := resolve st o which in
+            let m := match m with
+                     | MQuiet (MPrim (PStr _)) =>
+                         if (h =? 90) && (which =? 1)
+                         then MQuiet (MPrim (PStr ([91; 111; 98; 106; 101; 99; 116; 32] ++ class_name o ++ [93])))
+                         else m
+                     | _ => m
+                     end in
+            call_meth h which m st.
+
 Definition default_value (hint_string : bool) (o : obj) : M prim :=
-  let first := if hint_string then call_meth o 1 (o_ts o) else call_meth o 0 (o_vo o) in
-  let second := if hint_string then call_meth o 0 (o_vo o) else call_meth o 1 (o_ts o) in
+  let first := if hint_string then get_and_call o 1 else get_and_call o 0 in
+  let second := if hint_string then get_and_call o 0 else get_and_call o 1 in
   r1 <- first ;;
   match r1 with
   | Some p => ret p
@@ -114,7 +178,8 @@ Record dialect := {
   d_strlt : list Z -> list Z -> bool;
   d_plus_late : bool;        (* a + b: GetValue(b) after ToPrimitive(a) *)
   d_cmp_late : bool;         (* x op= e: GetValue(x) after evaluating e (otto before commit 3657e0a; no dialect sets it now) *)
-  d_otto_cmp : bool          (* otto's transcription of 11.8.5 / 11.9.3 instead of the clause text *)
+  d_otto_cmp : bool;         (* otto's transcription of 11.8.5 / 11.9.3 instead of the clause text *)
+  d_bound_own : bool         (* instanceof with a bound function on the right uses the bound function's own prototype object *)
 }.
 
 Section WithDialect.
@@ -328,13 +393,22 @@ Definition binop (op : Z) (l r : value) : M value :=
     b <- (if d_otto_cmp d then model_relop op l r else spec_relop op l r) ;; ret (boolv b)
   else if op =? 19 then
     match r with
-    | VO o => name <- to_string_v l ;; ret (boolv (has_prop o name))
+    | VO o => name <- to_string_v l ;;
+              (fun st => (Ok (boolv (has_prop o name ||
+                                     existsb (fun pid => match find_obj st pid with
+                                                         | Some p => existsb (zlist_eqb name) (o_keys p)
+                                                         | None => false
+                                                         end) (o_chain o))), st))
     | VP _ => throw tag_TypeError
     end
   else if op =? 20 then
     match r with
     | VO f =>
-        if o_cls f =? 2 then
+        if (o_cls f =? 4) && d_bound_own d then
+          (* newBoundFunctionObject gives every bound function a fresh prototype object: nothing is an instance *)
+          ret (boolv false)
+        else if (o_cls f =? 2) || (o_cls f =? 4) then
+          (* 15.3.5.3; 15.3.4.5.3 for a bound function: the target's [[HasInstance]] *)
           match l with
           | VO o => if o_fproto f =? 0 then throw tag_TypeError
                     else ret (boolv (existsb (Z.eqb (o_fproto f)) (o_chain o)))
@@ -354,7 +428,7 @@ Definition typeof_v (v : value) : list Z :=
   | VP (PBool _) => s_boolean
   | VP (PNum _) => s_number
   | VP (PStr _) => s_string
-  | VO o => if o_cls o =? 2 then s_function else s_object
+  | VO o => if (o_cls o =? 2) || (o_cls o =? 4) then s_function else s_object
   end.
 
 Definition is_surrogate_or_fffd (u : Z) : bool := ((0xD800 <=? u) && (u <=? 0xDFFF)) || (u =? 0xFFFD).
@@ -395,7 +469,8 @@ Inductive expr :=
 | EAsg (n : nat) (e : expr)
 | ECmp (op : Z) (n : nat) (e : expr)  (* var op= e, op in 0..10 *)
 | EInc (pre dec : bool) (n : nat)
-| ELog (k : Z) (e : expr).            (* (log.push(k), e) *)
+| ELog (k : Z) (e : expr)             (* (log.push(k), e) *)
+| ESetM (id which : Z) (m : meth).    (* void (o.valueOf = function ...) / void (delete o.valueOf) *)
 
 Fixpoint eval (e : expr) : M value :=
   match e with
@@ -428,6 +503,7 @@ Fixpoint eval (e : expr) : M value :=
       let b := fadd a (of_int (if dec then -1 else 1)) in
       _ <- setvar n (num b) ;; ret (num (if pre then b else a))
   | ELog k e1 => _ <- logk k ;; eval e1
+  | ESetM id which m => _ <- setmeth id which m ;; ret (VP PUndef)
   end.
 
 End WithDialect.
@@ -437,7 +513,7 @@ End WithDialect.
 Definition spec_d : dialect := {|
   d_int32 := to_int32; d_uint32 := to_uint32; d_uint16 := to_uint16; d_integer := to_integer; d_div := fdiv;
   d_str2num := string_to_number; d_strlt := units_lt;
-  d_plus_late := false; d_cmp_late := false; d_otto_cmp := false |}.
+  d_plus_late := false; d_cmp_late := false; d_otto_cmp := false; d_bound_own := false |}.
 
 Definition model_str2num (s : list Z) : numlit := NLVal (parse_number s).
 
@@ -446,7 +522,7 @@ Definition model_d : dialect := {|
   d_str2num := model_str2num; d_strlt := m_str_lt;
   d_plus_late := true;
   d_cmp_late := false;   (* was true up to /repo commit 3657e0a, which restored the 11.13.2 order *)
-  d_otto_cmp := true |}.
+  d_otto_cmp := true; d_bound_own := true |}.
 
 (* observation of one run: status (0 normal, else the thrown tag), result, final variables, log *)
 Definition obs := (Z * oval * list oval * list Z)%type.
@@ -454,8 +530,11 @@ Definition obs_eqb (a b : obs) : bool :=
   let '(s1, r1, v1, l1) := a in let '(s2, r2, v2, l2) := b in
   (s1 =? s2) && oval_eqb r1 r2 && list_eqb oval_eqb v1 v2 && zlist_eqb l1 l2.
 
-Definition run (d : dialect) (vs : list value) (e : expr) : option obs :=
-  match eval d e {| vars := vs; log := [] |} with
+Definition objs_of (ps : list value) : list obj :=
+  flat_map (fun v => match v with VO o => [o] | VP _ => [] end) ps.
+
+Definition run (d : dialect) (ps vs : list value) (e : expr) : option obs :=
+  match eval d e {| vars := vs; log := []; tbl := []; protos := objs_of ps |} with
   | (Ok v, st) => Some (0, project v, map project (vars st), rev (log st))
   | (Thr t, st) => Some (t, OP PUndef, map project (vars st), rev (log st))
   | (Decl, _) => None
